@@ -37,6 +37,9 @@ func init() {
 
 // hostileTree: names containing '-' and digits, repeated values, same text at several depths.
 func hostileTree(g *xgen.G) *xdoc.Doc {
+	if g.Intn(6) == 0 {
+		return g.NameLikeTree(xgen.HostileNames)
+	}
 	o := xgen.DefaultTree()
 	o.Names = xgen.HostileNames
 	o.TextVals = []string{"1", "a-1", "1-1", "a", "x", "2", "a=1", "-1"}
